@@ -9,6 +9,7 @@ passes Path objects. Not decided: what compilers write into .d files and
 whether depfixer agrees with them; whether the tool then finds the file.
 """
 import ast
+import re
 
 from ..index import unparse
 from .. import query as Q
@@ -42,7 +43,59 @@ def clean_paths(ctx):
            'directory sentinel is not a Path below the output directory')
 
 
+WORDWISE = re.compile(r'\$\([@<^?*%+|][DF]\)|\$\{[@<^?*%+|][DF]\}|'
+                      r'\$\((dir|notdir|basename|suffix|abspath|realpath|'
+                      r'firstword|lastword)\s')
+
+
+def wordwise_functions(ctx):
+    """GNU Make's directory/file variants of the automatic variables
+    (`$(@D)`, `$(<F)`, ...) and its file-name functions (`$(dir ..)`,
+    `$(notdir ..)`, ...) treat their operand as a *list of words*: applied
+    to `$@` they cut a file name that contains a space into pieces
+    (reader-side fact, GNU Make manual 'Automatic Variables' / 'Functions
+    for File Names'). No text of a generated Makefile may use them on file
+    names: every string constant of the Make backend and of the builtins
+    that write recipes is scanned."""
+    R = 'MK-WORDWISE'
+    ctx.rule(R, 'no generated Make text applies a word-wise file-name '
+             'function or a D/F automatic-variable variant to a file name '
+             '(they split names containing spaces)')
+    n = 0
+    for m in ctx.repo.modules.values():
+        if not (m.name.startswith('bfg9000.backends.make') or
+                m.name.startswith('bfg9000.builtins')):
+            continue
+        for c in ast.walk(m.tree):
+            if isinstance(c, ast.Constant) and isinstance(c.value, str):
+                n += 1
+                hit = WORDWISE.search(c.value) or re.fullmatch(
+                    r'[@<^?*%+|][DF]', c.value)   # var('@D') / qvar('<F')
+                par = getattr(c, '_parent', None)
+                if hit is None and isinstance(par, ast.Call) and unparse(
+                        par.func).split('.')[-1] == 'Function' and \
+                        par.args and par.args[0] is c and c.value in (
+                            'dir', 'notdir', 'basename', 'suffix', 'abspath',
+                            'realpath', 'firstword', 'lastword'):
+                    hit = re.match(r'.+', c.value)   # Function('dir', ..)
+                if hit:
+                    ctx.ob(R, '{}|{}'.format(m.name, hit.group(0).strip()),
+                           False, c, 'Make text {!r} uses {}: the operand is '
+                           'split at spaces, so a file name with a space is '
+                           'cut into words'.format(c.value[:60],
+                                                   hit.group(0).strip()))
+    ctx.ob(R, 'constants-scanned', n >= 500, None,
+           'only {} string constants scanned'.format(n))
+    # the scanner itself (expected count on the tree is zero): a positive
+    # example must match on every run
+    ctx.ob(R, 'scanner-self-check', bool(WORDWISE.search("mkdir -p '$(@D)'"))
+           and bool(WORDWISE.search('$(dir $@)')) and not WORDWISE.search(
+               "'$(patsubst %/.dir,%,$@)'"), None,
+           'the word-wise pattern no longer recognises its examples')
+
+
 def check(ctx):
+    wordwise_functions(ctx)
     ctx.rule('ESC-MAKE', 'Syntax.target / Syntax.dependency / Syntax.clean '
              'escape every GNU Make metacharacter of the path positions they '
              'are designed for (targets and include operands; '
